@@ -5,7 +5,7 @@ PROP = dict(
     lean_module="AbraProofs.Properties.C09",
     required_theorems=["C09_chanInv_new", "C09_chan_refines_queue", "C09_chan_refines_queue_runN", "C09_chan_fifo",
                        "C09_chan_count", "C09_read_blocks_only_reader", "C09_blocked_reader_turn", "C09_chan_copy_scalar",
-                       "C09_chan_snapshot_at_write", "C09_chan_copy_valid", "C09_chan_receive_total",
+                       "C09_chan_snapshot_at_write", "C09_chan_in_message_same_queue", "C09_queue_outlives_threads", "C09_chan_copy_valid", "C09_chan_receive_total",
                        "C09_prerepair_mutated_witness", "C09_prerepair_reclaimed_witness"],
     harness_bin="c09",
     # trace cases compare the whole interleaving; the property's statements are checked directly (spec_fail)
@@ -24,7 +24,12 @@ PROP = dict(
          "the read (junk allocations in between); the same object sent twice with a mutation in between (two independent "
          "snapshots); a struct containing the channel it is sent on; 20-60 struct messages mutated after writing, writer gone, "
          "reader reads all; every nested value type written by a task that is gone at the read - with `heapsend` model requests "
-         "(W = write now, R = read, M/T ops). Hard regression runs of the two former D23 replays (the second in a child process). "
+         "(W = write now, R = read, M/T ops). HAND-OVER (quick 24): a channel with values pending in it handed over through another "
+         "channel - directly, in a struct, an array, a variant - values written before the outer write and between outer write "
+         "and outer read, the sender finishing at once / dropping its handle and allocating until its collector ran / staying "
+         "alive, the receiver reading late: the inner channel delivers exactly what was written, in order. NESTED GRID (quick 55): "
+         "the C08 container x leaf grid (depth <= 3) transported as a message, `heapsend` model requests. "
+         "Hard regression runs of the two former D23 replays (the second in a child process). "
          "Every program runs in a child process (a host abort is reported with its program). spec_fail: per channel the identity tokens of the "
          "popped messages (the hook reports the written value's (bits,tag) carried by the message) are, position by position, a prefix "
          "of the tokens pushed (order, once; messages with equal tokens are told apart by the content checks); output and final value equal those of a "
